@@ -314,6 +314,11 @@ Hint Resolve sound_upd_zact sound_upd_rawsz : snd.
 Lemma sound_rd_stream sid : sound (rd_stream sid).
 Proof. unfold rd_stream. snd. Qed.
 Hint Resolve sound_rd_stream : snd.
+Lemma sound_rd_zlib_stream : sound rd_zlib_stream.
+Proof. unfold rd_zlib_stream, rd_shared. snd; try (apply sound_upd; intros; apply keeps_same; auto). Qed.
+Lemma sound_rd_zrle_stream : sound rd_zrle_stream.
+Proof. unfold rd_zrle_stream, rd_shared. snd; try (apply sound_upd; intros; apply keeps_same; auto). Qed.
+Hint Resolve sound_rd_zlib_stream sound_rd_zrle_stream : snd.
 Lemma sound_dec_zlib x y w h : sound (dec_zlib x y w h).
 Proof. unfold dec_zlib. snd. Qed.
 Lemma sound_dec_ultra x y w h : sound (dec_ultra x y w h).
